@@ -64,7 +64,9 @@ def normalise(spec):
         return spec
     n = dict(spec)
     if not n.get('fn'):
-        n.update(in_shape=[], phys=False, upd=False, in_deriv=False, in_comp=0)
+        n.update(in_shape=[], phys=False, upd=False, in_deriv=False, in_comp=0, in_dpara=False)
+    if not n.get('in_deriv'):
+        n['in_dpara'] = False
     if not n.get('in_shape'):
         n['in_comp'] = 0
     if n.get('comps'):
@@ -130,7 +132,8 @@ def build(spec, incremental=False):
         f = V.input('f', shape=shape, physical=spec['phys'], updatable=spec['upd'])
         arg = f if shape == () else f[spec.get('in_comp', 0)]
         if spec.get('in_deriv'):
-            arg = arg.dx(0)             # derivative of the input field
+            # derivative of the input field: physical (default) or parametric
+            arg = arg.dx(0, parametric=True) if spec.get('in_dpara') else arg.dx(0)
         coef = coef * (getattr(vform, spec['fn'])(arg) if spec['fn'] != 'id' else arg)
     if spec['par']:
         coef = coef * V.parameter('a')
@@ -185,16 +188,19 @@ def base_spec(s):
     kind = s.weighted([('volume', 6), ('nomeasure', 2), ('boundary', 1), ('boundary-nomeasure', 1)])
     if dim == 1 and kind.startswith('boundary'):
         kind = 'nomeasure'
-    return {'k': 'tpl', 'dim': dim, 'surface': False, 'boundary': kind.startswith('boundary'), 'arity': 2, 'comps': comps,
+    sp = {'k': 'tpl', 'dim': dim, 'surface': False, 'boundary': kind.startswith('boundary'), 'arity': 2, 'comps': comps,
             'spaces': [0, 0],
             'c': s.pick([2.0, 3.0, 0.5, 1e-13]), 'fn': fn, 'in_shape': s.pick([[], [], [2]]), 'phys': bool(s.choice(2)), 'upd': False,
-            'in_deriv': False, 'in_comp': 0, 'vop': s.pick(['', '', '+']),
+            'in_deriv': bool(s.choice(3) == 0), 'in_dpara': bool(s.choice(2)), 'in_comp': 0, 'vop': s.pick(['', '', '+']),
             'let': s.pick([None, None, {'name': 'B', 'sym': True}, {'name': 'B', 'sym': False}]), 'st': False,
             'mat_kind': s.pick(['', '', '', 'param', 'input']), 'mat_shape': s.pick([[2, 3], [3, 2], [2, 2]]),
             'mat_ij': [s.choice(2), s.choice(2)],
             'par': bool(s.choice(2)), 'dax': s.choice(dim), 'dtimes': 0 if comps else s.choice(3), 'dpara': False,
             'meas': {'volume': 'dx', 'nomeasure': 'none', 'boundary': 'ds', 'boundary-nomeasure': 'none'}[kind],
             'op': s.pick(['', '+', '-']), 'c2': s.pick([1.5, 4.0])}
+    if sp['phys']:
+        sp['in_deriv'] = False      # derivatives are only taken of parametric input fields here
+    return sp
 
 
 def mutations(spec):
@@ -224,6 +230,8 @@ def mutations(spec):
     if spec['fn']:
         if not spec['phys']:
             mut('input-derivative', in_deriv=not spec.get('in_deriv', False))
+            if spec.get('in_deriv'):
+                mut('input-derivative-parametric', in_dpara=not spec.get('in_dpara', False))
         if spec['in_shape']:
             mut('input-component', in_comp=1 - spec.get('in_comp', 0))
         mut('shape', in_shape=([2] if not spec['in_shape'] else []))
